@@ -68,7 +68,9 @@ def check(ctx, replay=None):
     import polfam
     plan = [dict(scope="groups2", mc=None, kw=dict(NSys=3), stride=1 if th else 2, concs=2, expand=1),
             dict(scope="merge", mc=None, stride=1 if th else 4, concs=2, expand=1),
-            dict(scope="many", mc=None, stride=2 if th else 12, concs=2, expand=1)]
+            dict(scope="many", mc=None, stride=2 if th else 12, concs=2, expand=1),
+            # condition lists whose arguments are not in ascending order (a compiler that "normalises" them must not do it in the caller's slice)
+            dict(scope="deep", mc=None, stride=1 if th else 3, concs=2, expand=1)]
     polfam.run_family(ctx, plan, mine={"determinism"}, decision_owner=None)
 
     # 2. sequential replay of the TLC histories
